@@ -24,7 +24,7 @@
 //       ["er+",name] ["er-",name]                entity reference boundaries (only when cfg.entityRefs)
 //       ["pm+",prefix,uri] ["pm-",prefix]        SAX2 prefix mappings (only when cfg.prefixMappings)
 //       ["ee",uri,local,qname]  ["ed"]
-//       ["err",class,line]                       class in {"warning","error","fatal"}; streaming APIs: in arrival order,
+//       ["err",class,line(,column)]              column only when cfg.columns; class in {"warning","error","fatal"}; streaming APIs: in arrival order,
 //                                                DOM/DOMLS: after the tree dump (the tree is walked after the parse)
 //     A field the API cannot observe is JSON null (SAX1: uri/local/cdata/specified; DOM: line; ...); pd::caps(api)
 //     says which event kinds / fields an API delivers, so that an expected list can be projected before comparing.
@@ -98,6 +98,7 @@ struct Config {
     bool prefixMappings = false;         // SAX2: include pm+/pm- events
     bool declEvents = false;             // SAX2: include att/el declaration events
     bool lines = true;                   // include line numbers (se, err); false -> null
+    bool columns = false;                // err events get a 4th element: the column number
     bool disableDefaultEntityResolution = false;
     XMLEntityResolver* resolver = nullptr;   // not owned
     std::string sysId = "mem.xml";       // system id given to parseBytes' MemBufInputSource
@@ -169,9 +170,14 @@ struct Sink {
         inDtd = false;
         r->events.push_back({"dt-"});
     }
-    void err(const char* cls, long line, const XMLCh* msg) {
+    json errEv(const char* cls, long line, long col) const {
+        json e = {"err", cls, cfg->lines ? json(line) : json(nullptr)};
+        if (cfg->columns) e.push_back(col);
+        return e;
+    }
+    void err(const char* cls, long line, const XMLCh* msg, long col = 0) {
         if (cls[0] == 'w') r->warnings++; else if (cls[0] == 'e') r->errors++; else r->fatals++;
-        r->events.push_back({"err", cls, cfg->lines ? json(line) : json(nullptr)});
+        r->events.push_back(errEv(cls, line, col));
         if (r->messages.size() < 8) r->messages.push_back(s8(msg));
     }
     static void sortAttrs(json& a) {
@@ -200,9 +206,9 @@ struct Sax1Handler : public HandlerBase {
     void unparsedEntityDecl(const XMLCh* const n, const XMLCh* const p, const XMLCh* const s, const XMLCh* const nn) override {
         k.push({"ent", S(n), S(p), S(s), S(nn), nullptr});
     }
-    void warning(const SAXParseException& e) override { k.err("warning", (long)e.getLineNumber(), e.getMessage()); }
-    void error(const SAXParseException& e) override { k.err("error", (long)e.getLineNumber(), e.getMessage()); }
-    void fatalError(const SAXParseException& e) override { k.err("fatal", (long)e.getLineNumber(), e.getMessage()); }
+    void warning(const SAXParseException& e) override { k.err("warning", (long)e.getLineNumber(), e.getMessage(), (long)e.getColumnNumber()); }
+    void error(const SAXParseException& e) override { k.err("error", (long)e.getLineNumber(), e.getMessage(), (long)e.getColumnNumber()); }
+    void fatalError(const SAXParseException& e) override { k.err("fatal", (long)e.getLineNumber(), e.getMessage(), (long)e.getColumnNumber()); }
     void resetErrors() override {}
 };
 
@@ -247,9 +253,9 @@ struct Sax2Handler : public DefaultHandler {
         if (k.cfg->declEvents) k.push({"att", S(e), S(a), S(t), S(m), S(v)});
     }
     void elementDecl(const XMLCh* const n, const XMLCh* const m) override { if (k.cfg->declEvents) k.push({"el", S(n), S(m)}); }
-    void warning(const SAXParseException& e) override { k.err("warning", (long)e.getLineNumber(), e.getMessage()); }
-    void error(const SAXParseException& e) override { k.err("error", (long)e.getLineNumber(), e.getMessage()); }
-    void fatalError(const SAXParseException& e) override { k.err("fatal", (long)e.getLineNumber(), e.getMessage()); }
+    void warning(const SAXParseException& e) override { k.err("warning", (long)e.getLineNumber(), e.getMessage(), (long)e.getColumnNumber()); }
+    void error(const SAXParseException& e) override { k.err("error", (long)e.getLineNumber(), e.getMessage(), (long)e.getColumnNumber()); }
+    void fatalError(const SAXParseException& e) override { k.err("fatal", (long)e.getLineNumber(), e.getMessage(), (long)e.getColumnNumber()); }
     void resetErrors() override {}
 };
 
@@ -315,9 +321,9 @@ struct RawAux : public HandlerBase {
     Sink& k;
     explicit RawAux(Sink& s) : k(s) {}
     void setDocumentLocator(const Locator* const l) override { k.loc = l; }
-    void warning(const SAXParseException& e) override { k.err("warning", (long)e.getLineNumber(), e.getMessage()); }
-    void error(const SAXParseException& e) override { k.err("error", (long)e.getLineNumber(), e.getMessage()); }
-    void fatalError(const SAXParseException& e) override { k.err("fatal", (long)e.getLineNumber(), e.getMessage()); }
+    void warning(const SAXParseException& e) override { k.err("warning", (long)e.getLineNumber(), e.getMessage(), (long)e.getColumnNumber()); }
+    void error(const SAXParseException& e) override { k.err("error", (long)e.getLineNumber(), e.getMessage(), (long)e.getColumnNumber()); }
+    void fatalError(const SAXParseException& e) override { k.err("fatal", (long)e.getLineNumber(), e.getMessage(), (long)e.getColumnNumber()); }
     void resetErrors() override {}
 };
 
@@ -330,7 +336,8 @@ struct DomErr : public DOMErrorHandler {
         const char* cls = e.getSeverity() == DOMError::DOM_SEVERITY_WARNING ? "warning" : e.getSeverity() == DOMError::DOM_SEVERITY_ERROR ? "error" : "fatal";
         if (cls[0] == 'w') k.r->warnings++; else if (cls[0] == 'e') k.r->errors++; else k.r->fatals++;
         long line = e.getLocation() ? (long)e.getLocation()->getLineNumber() : 0;
-        held.push_back({"err", cls, k.cfg->lines ? json(line) : json(nullptr)});
+        long col = e.getLocation() ? (long)e.getLocation()->getColumnNumber() : 0;
+        held.push_back(k.errEv(cls, line, col));
         if (k.r->messages.size() < 8) k.r->messages.push_back(s8(e.getMessage()));
         return true;
     }
@@ -341,7 +348,7 @@ struct SaxErrHeld : public HandlerBase {   // ErrorHandler for XercesDOMParser
     explicit SaxErrHeld(Sink& s) : k(s) {}
     void add(const char* cls, const SAXParseException& e) {
         if (cls[0] == 'w') k.r->warnings++; else if (cls[0] == 'e') k.r->errors++; else k.r->fatals++;
-        held.push_back({"err", cls, k.cfg->lines ? json((long)e.getLineNumber()) : json(nullptr)});
+        held.push_back(k.errEv(cls, (long)e.getLineNumber(), (long)e.getColumnNumber()));
         if (k.r->messages.size() < 8) k.r->messages.push_back(s8(e.getMessage()));
     }
     void warning(const SAXParseException& e) override { add("warning", e); }
